@@ -14,6 +14,8 @@ import math
 import sympy
 import numpy
 
+from sympy.printing.precedence import PRECEDENCE
+
 try:
     from sympy.printing.numpy import NumPyPrinter
 except ImportError:
@@ -405,6 +407,20 @@ class HighPrecPrinter(NumPyPrinter):
     """Custom printer that translates sympy.Rational into TimeType"""
     def _print_Rational(self, expr):
         return f'TimeType.from_fraction({expr.p}, {expr.q})'
+
+    def _print_Mul(self, expr):
+        code = super()._print_Mul(expr)
+        if any(arg.is_Pow and arg.exp.is_Integer and arg.exp.is_negative for arg in expr.args):
+            # python's int / int is a float: start the product with an exact one
+            code = f'TimeType.from_fraction(1, 1)*{code}'
+        return code
+
+    def _print_Pow(self, expr, rational=False):
+        if expr.exp.is_Integer and expr.exp.is_negative:
+            # python's int ** -n is a float: divide an exact one by the positive power
+            denominator = self.parenthesize(sympy.Pow(expr.base, -expr.exp, evaluate=False), PRECEDENCE['Mul'], strict=True)
+            return f'(TimeType.from_fraction(1, 1)/{denominator})'
+        return super()._print_Pow(expr, rational=rational)
 
     @classmethod
     def make(cls, expr, modules, use_imps=True):
